@@ -142,6 +142,42 @@ except BaseException as e:
 print(json.dumps(out))
 """
 
+PROBE_STABLE = r"""
+import sys, json, warnings, importlib, types
+sys.path.insert(0, sys.argv[1])
+mods = json.loads(sys.argv[2])
+out = {"error": None, "changed": []}
+try:
+    with warnings.catch_warnings(record=True):
+        warnings.simplefilter("always")
+        first = {}
+        for m in mods:                         # each legacy module as it is right after its own import ...
+            L = importlib.import_module(m)
+            first[m] = {n: v for n, v in vars(L).items() if not n.startswith("_") and not isinstance(v, types.ModuleType)}
+        for m in mods:                         # ... and after every other legacy path has been imported too
+            L = sys.modules[m]
+            for n, v in sorted(first[m].items()):
+                if not hasattr(L, n):
+                    out["changed"].append([m, n, "gone"])
+                elif getattr(L, n) is not v:
+                    out["changed"].append([m, n, type(getattr(L, n)).__name__])
+except BaseException as e:
+    out["error"] = "%s: %s" % (type(e).__name__, e)
+print(json.dumps(out))
+"""
+
+def ns_stable(order):
+    """import the legacy modules in the given order in ONE fresh interpreter; a public name bound by a legacy module
+    must still be the same object once all the other legacy paths have been imported (a sub-module import rebinds a
+    package attribute of the same name)"""
+    p = subprocess.run([sys.executable, "-c", PROBE_STABLE, REPO, json.dumps([str(x) for x in order])],
+                       stdout=subprocess.PIPE, stderr=subprocess.PIPE, timeout=120,
+                       env={k: v for k, v in os.environ.items() if k != "PYTHONWARNINGS"})
+    try:
+        return json.loads(p.stdout.decode().strip().split("\n")[-1])
+    except Exception:
+        return {"error": "probe failed: " + p.stderr.decode()[-300:], "changed": []}
+
 _probe_cache = {}
 
 def ns_targets(legacy_name):
